@@ -51,6 +51,17 @@ def allowed : List (Fact × Why) := [
   (⟨"internal/signature", "AdjustEncodingLengths", "return-param", "dq"⟩, .inputView),
   (⟨"internal/signature", "Pad", "return-param", "toPad"⟩, .inputView),
   (⟨"internal/signature/slhdsa", "params.chain", "return-param", "x"⟩, .inputView),
+  (⟨"hybrid/internal/hpke", "NewEncrypt", "retain-param", "Encrypt{#0}=recipientPubKeyBytes"⟩, .internalOwned),
+  (⟨"internal/signature/slhdsa", "params.DecodePublicKey", "retain-param", "PublicKey{#0}=pkEnc"⟩, .internalOwned),
+  (⟨"internal/signature/slhdsa", "params.DecodePublicKey", "retain-param", "PublicKey{#1}=pkEnc"⟩, .internalOwned),
+  (⟨"internal/signature/slhdsa", "params.DecodeSecretKey", "retain-param", "SecretKey{#0}=skEnc"⟩, .internalOwned),
+  (⟨"internal/signature/slhdsa", "params.DecodeSecretKey", "retain-param", "SecretKey{#1}=skEnc"⟩, .internalOwned),
+  (⟨"internal/signature/slhdsa", "params.DecodeSecretKey", "retain-param", "SecretKey{#2}=skEnc"⟩, .internalOwned),
+  (⟨"internal/signature/slhdsa", "params.DecodeSecretKey", "retain-param", "SecretKey{#3}=skEnc"⟩, .internalOwned),
+  (⟨"internal/signature/slhdsa", "params.slhKeygenInternal", "retain-param", "PublicKey{#0}=pkSeed"⟩, .internalOwned),
+  (⟨"internal/signature/slhdsa", "params.slhKeygenInternal", "retain-param", "SecretKey{#0}=skSeed"⟩, .internalOwned),
+  (⟨"internal/signature/slhdsa", "params.slhKeygenInternal", "retain-param", "SecretKey{#1}=skPrf"⟩, .internalOwned),
+  (⟨"internal/signature/slhdsa", "params.slhKeygenInternal", "retain-param", "SecretKey{#2}=pkSeed"⟩, .internalOwned),
   (⟨"keyderivation/internal/streamingprf", "NewHKDFStreamingPRF", "retain-param", "HKDFStreamingPRF{key}=key"⟩, .internalOwned),
   (⟨"keyderivation/internal/streamingprf", "NewHKDFStreamingPRF", "retain-param", "HKDFStreamingPRF{salt}=salt"⟩, .internalOwned),
   (⟨"keyderivation/prfbasedkeyderivation", "keyManager.NewKeyData", "retain-param", "tinkpb.KeyTemplate{Value}=serializedKeyFormat"⟩, .protoMarshalled),
